@@ -115,7 +115,12 @@ func c03validator(ctx context.Context, database, username, password string) (con
 	return ctx, password == "pw", nil
 }
 
+// c03envBig: a server whose message limit is 1 MiB (bodies above 64 KiB are ordinary messages there)
+var c03envBig *hs.Env
+
 func (ch c03) Run(c *core.Ctx) {
+	c03envBig = hs.Start(hs.Parse, wire.MessageBufferSize(1<<20))
+	defer c03envBig.Stop()
 	envPlain := hs.Start(hs.Parse)
 	envAuth := hs.Start(hs.Parse, wire.SessionAuthStrategy(wire.ClearTextPassword(c03validator)))
 	defer envPlain.Stop()
@@ -457,7 +462,25 @@ func (ch c03) segmentation(c *core.Ctx, envPlain, envAuth *hs.Env, rng *core.Rng
 		add(pg.Password(core.Pick(rng, []string{"pw", "pw", "wrong"})))
 		shape += "auth "
 	}
+	// one stream in six carries a Query of 64 KiB .. 200 KB (sizes at and around powers of two among them) in
+	// front of one of its steps, on a server whose limit admits it: a body that large is read like any other
+	bigAt := -1
+	if env == envPlain && rng.Intn(6) == 0 {
+		env = c03envBig
+		bigAt = rng.Intn(len(s.Steps) + 1)
+		shape += "big "
+		c.Count("streams_with_a_body_above_64k", 1)
+	}
+	bigStep := func() {
+		n := core.Pick(rng, []int{65530, 65536, 65537, 70000, 100015, 131071, 131072, 131073, 150000, 200000})
+		q := "big " + strings.Repeat("x", n-4-rng.Intn(3))
+		s.Progs[q] = &hs.Prog{Stmts: []*hs.Stmt{{ID: "big", Cols: textCols(1), Ops: []hs.Op{{K: "row", Vals: []any{"b"}}, {K: "complete", Tag: "SELECT 1"}}}}}
+		add(pg.Query(q))
+	}
 	for i, st := range s.Steps {
+		if i == bigAt {
+			bigStep()
+		}
 		// split the step into its messages for header-cut bookkeeping
 		off := 0
 		for off+5 <= len(st) {
@@ -470,6 +493,11 @@ func (ch c03) segmentation(c *core.Ctx, envPlain, envAuth *hs.Env, rng *core.Rng
 		}
 		stream = append(stream, st...)
 		shape += s.Kinds[min(i, len(s.Kinds)-1)] + " "
+	}
+	if bigAt == len(s.Steps) {
+		bigStep()
+		add(pg.Query(s.User)) // (something behind it)
+		s.Progs[s.User] = &hs.Prog{Stmts: []*hs.Stmt{{ID: "after", Cols: textCols(1), Ops: []hs.Op{{K: "row", Vals: []any{"a"}}, {K: "complete", Tag: "SELECT 1"}}}}}
 	}
 	if rng.Intn(3) != 0 {
 		add(pg.Terminate())
